@@ -26,6 +26,8 @@ type Prop struct {
 	// QuickRuns: default number of runs per worker in the quick tier
 	QuickRuns int  `json:"quick_runs_per_worker"`
 	Race      bool `json:"race"` // needs the -race build
+	// ExpectedProbes: reach probes the workload is meant to hit; reported with a count of 0 when never hit
+	ExpectedProbes []string `json:"expected_probes"`
 }
 
 var Props = map[string]*Prop{}
